@@ -1,6 +1,6 @@
 (* zwmodel run: builds and runs the extracted engine model (Build.v, Engine.v)
    on trees dumped by the implementation's parser.
-   stdin:  line 1: "<tc_cst> <tc_str> <tc_seq> <tc_clo> <rank_arith> <rank_bool> <rank_slot> <fuel> <limit>"
+   stdin:  line 1: "<tc_cst> <tc_str> <tc_seq> <tc_clo> <rank_arith> <rank_bool> <rank_slot> <fuel> <limit> [<code>:x<hex name>]..."
            then one tree per line as an S-expression (see harness/zwdrv.cc sx_tree).
    stdout: one line per tree:
              DONE|FUEL|STUCK|ABORT <events>   or   BUILDERR unbound|rebound|stuck
@@ -138,10 +138,16 @@ let show_devs (evs : DenM.dev list) : string =
       | DenM.DSoft WordsM.SWarn -> "W") evs)
 
 let run ?(spec = false) ?(scope = false) ?(simp = false) ?(quiet = false) () =
-  let hdr = List.map int_of_string (List.filter (fun s -> s <> "") (String.split_on_char ' ' (input_line stdin))) in
+  let toks = List.filter (fun s -> s <> "") (String.split_on_char ' ' (input_line stdin)) in
+  (* tokens "<code>:x<hex name>" name the other registered value types *)
+  let others = List.filter_map (fun t ->
+      match String.index_opt t ':' with
+      | Some i -> Some (n_of_int (int_of_string (String.sub t 0 i)), bytes_of_xhex (String.sub t (i + 1) (String.length t - i - 1)))
+      | None -> None) toks in
+  let hdr = List.map int_of_string (List.filter (fun t -> not (String.contains t ':')) toks) in
   match hdr with
   | [a; b; c; d; ra; rb; rs; fuel; limit] ->
-    let tc = { ValueM.tc_cst = n_of_int a; tc_str = n_of_int b; tc_seq = n_of_int c; tc_clo = n_of_int d } in
+    let tc = { ValueM.tc_cst = n_of_int a; tc_str = n_of_int b; tc_seq = n_of_int c; tc_clo = n_of_int d; tc_other = others } in
     let rank (dm : ValueM.cdom) : n =
       match dm with
       | ValueM.DBool -> n_of_int rb
